@@ -200,6 +200,16 @@ CLAIMED = {
         note='composition with C01/C02/C03 (SAGE soundness, moments) gives the bound; strong duality observed only.',
         technique='Lean 4 proof (real analysis of monomials on orthants, signomial-representative algebra) + model/implementation correspondence check',
         design_ref='DESIGN.md 4/C05'),
+    'C17': dict(
+        text='PARTIAL (the candidate generators are inputs of the model). Theorems about a Lean model of the final stage of sig_solrec / '
+             'poly_solrec over float-like values (numbers, +-inf, NaN): a candidate passes the filter iff every inequality value is a number '
+             '>= -ineq_tol and every equality value a number within eq_tol (NaN never passes); exactly the passing candidates are returned, '
+             'each once, sorted stably by objective. The real is_feasible is compared with the model on synthetic values; the real '
+             'sig_solrec / poly_solrec are run on solved dual relaxations (X none / plain / with auxiliary columns, option grid) with a recorder '
+             'around is_feasible, and verdicts and output order are compared with the model; every returned point is re-evaluated independently.',
+        note='F8 repaired in /repo (c86e180 lifted PolyDomain crash, cfea74b NaN passes the filter).',
+        technique='Lean 4 proof (filter / stable-sort model over float-like values) + model/implementation correspondence check with recorded candidates',
+        design_ref='DESIGN.md 4/C17'),
 }
 
 NOT_YET = 'check not built yet in this session (planned, see DESIGN.md section 6); not claimed until its theorems and correspondence exist'
